@@ -90,6 +90,22 @@ def run(tier, seed, replay=None):
                     rep.violation(f"[{cfg}] reported solution violates an asserted constraint: {sb[0][:300]}", e2e.replay_of(stxt, cfg, so), tags={"core:" + cfg})
                 else:
                     rep.violation(f"[{cfg}] reported solution violates an asserted constraint: {msg[:300]}", e2e.replay_of(txt, cfg, o), tags={tag})
+        # time points (`tp`, the real-valued difference logic): planted difference networks
+        tprogs = [rgen.tp_program(rng) for _ in range(200 if tier == "quick" else 2000)]
+        for cfg in e2e.cfgs(tier):
+            outs = e2e.solve_all(cfg, [p[0] for p in tprogs])
+            worst = None
+            for (txt, meta), o in zip(tprogs, outs):
+                v = e2e.verdict(o)
+                key = v.split(":")[0]
+                if v == "T":
+                    bad = solcheck.check_constraints(e2e.solution(o), meta)
+                    key = "T-bad" if bad else "T-ok"
+                    if bad and (worst is None or len(txt) < len(worst[0])):
+                        worst = (txt, o, bad[0])
+                stats[(cfg, "tp", key)] = stats.get((cfg, "tp", key), 0) + 1
+            if worst:
+                rep.violation(f"[{cfg}] reported solution violates an asserted constraint: {worst[2][:300]}", e2e.replay_of(worst[0], cfg, worst[1]), tags={"tp:" + cfg})
         # object-valued constraints: enum variables with planted (dis)equalities
         eprogs = []
         for _ in range(150 if tier == "quick" else 1500):
